@@ -19,6 +19,19 @@ func successorAgrees(p *board.Position, turn board.Color, o *oracle.Pos, om orac
 	if !ok {
 		return nil, fmt.Errorf("legal move %v not generated in %v", om, o.KeyFEN())
 	}
+	// the move as a player names it (coordinate text): among the generated moves the text picks
+	// out this move and no other, whichever side of Equals the named move is on (the engine and
+	// the drivers find the move to play that way)
+	if named, err := board.ParseMove(om.String()); err != nil {
+		return nil, fmt.Errorf("text %q of the legal move %v does not parse: %v", om.String(), om, err)
+	} else {
+		for _, m := range p.PseudoLegalMoves(turn) {
+			same := bridge.KeyOfRepo(m) == bridge.KeyOfRepo(rm)
+			if named.Equals(m) != same || m.Equals(named) != same {
+				return nil, fmt.Errorf("in %v the text %q names the move %v, but compared with the generated move %v: named.Equals=%v, generated.Equals=%v", o.KeyFEN(), om.String(), om, m, named.Equals(m), m.Equals(named))
+			}
+		}
+	}
 	before := *p
 	next, ok := p.Move(rm)
 	if !ok || next == nil {
